@@ -2,7 +2,7 @@
    PARTIAL: the theorems are about the specification model CM (Spec/CMBlock.v); that PyMarkdown's structure is CM's is
    decided by comparing rendered HTML on the enumerated documents of the fragment F (see evidence). *)
 From Coq Require Import List NArith Bool Arith.
-Require Import PV.Spec.CMBlock PV.Proofs.CMProofs.
+Require Import PV.Spec.CMBlock PV.Proofs.CMProofs PV.Proofs.CMFuel.
 Import ListNotations.
 
 (* whatever the text: nothing that could open or close a tag or an attribute survives the renderer's escaping *)
@@ -14,6 +14,13 @@ Print Assumptions cm_escape_safe.
 Theorem fragment_has_no_inline_markup : forall ls l, in_F ls = true -> In l ls -> existsb excluded_char l = false.
 Proof. exact in_F_no_excluded. Qed.
 Print Assumptions fragment_has_no_inline_markup.
+
+(* the fuel the block phase gives its inner loop (one more than the length of what is left of the line) always suffices:
+   any larger amount gives the same result, for every state and every line *)
+Theorem cm_fuel_adequate : forall extra full ln s um cl cp clist ac rest,
+  starts_loop full (S (length rest) + extra) ln s um cl cp clist ac rest = starts_loop full (S (length rest)) ln s um cl cp clist ac rest.
+Proof. exact starts_loop_fuel_adequate. Qed.
+Print Assumptions cm_fuel_adequate.
 
 (* the model is a total function: the CommonMark examples it must reproduce, as regression facts *)
 Example cm_spec_examples :
